@@ -88,10 +88,11 @@ class _Names(ast.NodeTransformer):
         return n
 
 
-def _paths(stmts: list[ast.stmt], what: str, limit: int = 64) -> list[_Path]:
+def _paths(stmts: list[ast.stmt], what: str, limit: int = 64, pure_calls: bool = False) -> list[_Path]:
     """All paths through a loop-free body of assignments to locals, expression statements (calls), if/elif/else, return, raise,
     and `try: v = D[k]` / `except KeyError: ...` (read as `if k in D: v = D[k]` / `else: ...` - the lookup is the only thing
     that can raise KeyError there).  Locals are inlined; a local bound to a call stands for that call's value (`$k`).
+    With `pure_calls` the calls on right-hand sides are values without effect (string formatting) and are inlined as text.
     A pair `($k[0], $k[1])` rebuilt from an unpacked 2-tuple is `$k`.  Contradictory paths are dropped.  Anything else: TranslateError."""
     import copy as _copy
     import re as _re
@@ -101,7 +102,7 @@ def _paths(stmts: list[ast.stmt], what: str, limit: int = 64) -> list[_Path]:
         return _re.sub(r'\((\$\d+)\[0\], \1\[1\]\)', r'\1', s)
 
     def has_call(node: ast.expr) -> bool:
-        return any(isinstance(x, ast.Call) and not (isinstance(x.func, ast.Name) and x.func.id in ('len', 'isinstance', 'bool', 'repr', 'str'))
+        return not pure_calls and any(isinstance(x, ast.Call) and not (isinstance(x.func, ast.Name) and x.func.id in ('len', 'isinstance', 'bool', 'repr', 'str'))
                    for x in ast.walk(node))
 
     def run(stmts: list[ast.stmt], live: list[_Path]) -> list[_Path]:
@@ -126,6 +127,17 @@ def _paths(stmts: list[ast.stmt], what: str, limit: int = 64) -> list[_Path]:
                     else:
                         raise TranslateError(f'tokenizer.py:{st.lineno}: {what}: assignment target `{ast.unparse(tg)}` not modelled')
                     nxt.append(q)
+            elif isinstance(st, ast.Expr) and isinstance(st.value, ast.Call) and isinstance(st.value.func, ast.Attribute) \
+                    and st.value.func.attr == 'append' and isinstance(st.value.func.value, ast.Name) and len(st.value.args) == 1 \
+                    and all(st.value.func.value.id in q.env and q.env[st.value.func.value.id].startswith('[') for q in going):
+                # a local list built piece by piece: `parts = [a]; parts.append(b)` is `parts = [a, b]`
+                for q in going:
+                    cur = ast.parse(q.env[st.value.func.value.id].replace('$', '__v'), mode='eval').body
+                    if not isinstance(cur, ast.List):
+                        raise TranslateError(f'tokenizer.py:{st.lineno}: {what}: append to a local that is not a list literal')
+                    cur.elts.append(ast.parse(txt(q, st.value.args[0]).replace('$', '__v'), mode='eval').body)
+                    q.env[st.value.func.value.id] = ast.unparse(cur).replace('__v', '$')
+                    nxt.append(q)
             elif isinstance(st, ast.Expr) and isinstance(st.value, ast.Call):
                 for q in going:
                     q.effects.append(txt(q, st.value))
@@ -148,6 +160,13 @@ def _paths(stmts: list[ast.stmt], what: str, limit: int = 64) -> list[_Path]:
                     exc = st.exc.func if isinstance(st.exc, ast.Call) else st.exc
                     q.end = ('raise', ast.unparse(exc))
                     nxt.append(q)
+            elif isinstance(st, ast.If) and isinstance(st.test, ast.BoolOp):
+                # `if A and B: X else: Y` = `if A: (if B: X else: Y) else: Y`;  `if A or B: X else: Y` = `if A: X else: (if B: X else: Y)`
+                first, rest = st.test.values[0], st.test.values[1:]
+                rest_t = rest[0] if len(rest) == 1 else ast.BoolOp(op=st.test.op, values=rest)
+                inner = ast.copy_location(ast.If(test=rest_t, body=st.body, orelse=st.orelse), st)
+                outer = ast.If(test=first, body=[inner], orelse=st.orelse) if isinstance(st.test.op, ast.And) else ast.If(test=first, body=st.body, orelse=[inner])
+                nxt = run([ast.copy_location(outer, st)], going)
             elif isinstance(st, ast.If):
                 for q in going:
                     a, pol = _atom(st.test, lambda n, q=q: txt(q, n))
